@@ -445,12 +445,11 @@ class Stream(object):
 
 def is_no_body(request, response, no_content_codes=DEFAULT_NO_CONTENT_CODES):
     '''Return whether a content body is not expected.'''
-    if 'Content-Length' not in response.fields \
-            and 'Transfer-Encoding' not in response.fields \
-            and (
-                response.status_code in no_content_codes
-                or request.method.upper() == 'HEAD'
-            ):
+    # RFC 7230 3.3.3: such responses end at the header block whatever
+    # Content-Length or Transfer-Encoding say (both are legal in responses
+    # to HEAD and in 304 responses).
+    if response.status_code in no_content_codes \
+            or request.method.upper() == 'HEAD':
         return True
     else:
         return False
